@@ -9,14 +9,14 @@ phases = {
 "C07": ("scalar and bars (tick grid, invalid bars, rescaled units, prices just below overflow), recycled and identity-changed instances incl. clone_from during warm-up, huge periods", "plain release"),
 "C08": ("22 indicators × periods 1..=8,14,50 × 10 prefix kinds (incl. reset after 1..n+2 bars, reset from a level 1.7e5× higher, non-finite ticks for the window-only ones) × 12 levels × scalar/bar × 3; identity changes at the start of and inside each stretch", "plain release"),
 "C09": ("scalar (15 regimes incl. ulp noise, quiet, tick grid; one band stream in 16 in units of 2⁻¹⁰²⁴ / 2⁻¹⁰²⁸), bars (low ≤ high only), long streams 1.1·10⁶, huge periods; identity changes incl. clone_from", "plain release"),
-"C10": ("five-independent-field bars; one-price bars vs scalars (ties, one-ulp neighbours, −0.0); edge-alphabet enumeration; implementor enumeration over valid ±0 bars; DataItem", "plain release"),
+"C10": ("five-independent-field bars; one-price bars vs scalars (ties, one-ulp neighbours, −0.0); edge-alphabet enumeration; one stream in eight with 10⁷ bad ticks on windows of 128…300; implementor enumeration over valid ±0 bars; DataItem", "plain release"),
 "C11": ("periods 0..=4096 exhaustive; tuples over 0..=24 exhaustive; 13 multipliers incl. ±inf, NaN; accessors/Display also on clone, restored and clone_from copies; defaults vs new(defaults) on 7 kinds of openings; boundary phase (2¹⁶+1 … usize::MAX) in its own process", "plain release"),
 "C12": ("periods 1..=64 × 25 programs; sampled to 4096; 2³¹…usize::MAX for the allocation-free ones; defaults / DataItem / ctor-error; foreign thread; 1.1·10⁶-call runs with halts; Display/Debug with format flags", "ASan, Miri ops (windows up to 40), plain release (thorough: memcheck, llvm-cov)"),
 "C13": ("soak runs of 2.2·10⁶ steps (MAD/CCI 2.2·10⁵) × 14 periods × 17 regimes × 3 band floors (seeded subset; saw-tooth × small periods and MIN/MAX on ulp noise / tick grid always); identity changes incl. clone_from", "plain release"),
 "C14": ("2^k, arbitrary factor, shift twins (a third recycled; re-rating jumps; runs of identical bars); calm phase (shifts to 2³³ × level); windows of 10⁵ and 2¹⁷+1 slots; DataItem phase; MAX/−MIN mirror; huge units; long streams", "plain release"),
 "C15": ("8 composites vs hand-wired parts; rescaled / negated / near-overflow / mixed bar-and-scalar streams; bars with exact zero closes; recycled + identity-changed composite; composite panics reported", "plain release"),
 "C16": ("neighbouring floats (8 anchors × 3⁴ × 5 volumes); 10⁵ lattice tuples × 32 subsets; 120 orders on 5⁵ tuples; garbage-first and repeated setters; call sequences ≤ 6; 2·10⁶ random; clone and clone_from; error equality", "plain release"),
-"C17": ("(indicator, period) pairs × prefix kinds (spikes, resets inside, non-finite ticks for window-only ones, 1 in 40 longer than 2¹⁶; monotone and almost-monotone suffixes after a history ending on the extreme); extension 2n+2; signed and zero-containing histories", "plain release"),
+"C17": ("(indicator, period) pairs × prefix kinds (spikes, resets inside, non-finite ticks for window-only ones, 1 in 40 longer than 2¹⁶; monotone and almost-monotone suffixes after a history ending on the extreme); extension 2n+2; signed histories with ±0.0 at every fifth position", "plain release"),
 "C18": ("14 stream shapes (incl. bad ticks, zeros, doubling halts, 5e14 volumes, NaN outages of 1 500 inputs) × periods {1,2,7,64,512,…} × extreme multipliers; reset / clone / serde / clone_from-rewind cycles × 300", "massif (2 lengths), memcheck, plain release"),
 "C19": ("681 (type, bound) cells, with and without serde; dynamic exercise of 22 types", "—"),
 }
